@@ -107,7 +107,7 @@ Lemma first_match_some ls untyped pre x post :
   first_match_result ls untyped = convert x.
 Proof using Type. clr.
   intros E Hx Hpre. unfold first_match_result.
-  assert (find is_match ls = Some x) as -> by (apply find_some_first; eauto). reflexivity.
+  assert (find is_match ls = Some x) as -> by (apply (proj2 (find_some_first _ _ _)); eauto). reflexivity.
 Qed.
 
 (* ... and the default (converted unless untyped_default) iff no line matches *)
@@ -115,7 +115,7 @@ Lemma first_match_none ls untyped :
   (forall y, In y ls -> is_match y = false) ->
   first_match_result ls untyped = (if untyped then Ok draw else dconv).
 Proof using Type. clr.
-  intros H. unfold first_match_result. apply find_none_iff in H. rewrite H. reflexivity.
+  intros H. unfold first_match_result. rewrite (proj2 (find_none_iff _ _) H). reflexivity.
 Qed.
 
 Lemma first_match_cases ls untyped :
@@ -124,9 +124,9 @@ Lemma first_match_cases ls untyped :
   \/ ((forall y, In y ls -> is_match y = false) /\ first_match_result ls untyped = (if untyped then Ok draw else dconv)).
 Proof using Type. clr.
   destruct (find is_match ls) as [x|] eqn:E.
-  - left. apply find_some_first in E. destruct E as (pre & post & El & Hx & Hpre).
+  - left. destruct (proj1 (find_some_first _ _ _) E) as (pre & post & El & Hx & Hpre).
     exists pre, x, post. repeat split; auto. eapply first_match_some; eauto.
-  - right. apply find_none_iff in E. split; auto. apply first_match_none; auto.
+  - right. pose proof (proj1 (find_none_iff _ _) E) as Hn. split; auto. apply first_match_none; auto.
 Qed.
 
 (* when the requested group participates in the match, the conversion is that of the group text *)
